@@ -573,7 +573,13 @@ func stubNumberFloat64(s *State, a []Value) Value {
 		f, err := strconv.ParseFloat(x, 64)
 		return Tuple{f, s.hostError(err)}
 	case *AbsStr:
-		return Tuple{s.W.numVal(x.Id), Iface{}}
+		nv := s.W.numVal(x.Id)
+		if s.NumOverflow && s.decide(s.W.Pool.App("fp.isInfinite", SortBool, nv), "number-range") {
+			// a spelling outside the float64 range: ParseFloat returns +-Inf and ErrRange
+			_, err := strconv.ParseFloat("1e400", 64)
+			return Tuple{nv, s.hostError(err)}
+		}
+		return Tuple{nv, Iface{}}
 	}
 	s.abort("Number.Float64 on %T", a[0])
 	return nil
